@@ -52,7 +52,20 @@ RULE = (
     "the mask attached to samplers and results (array, pixel scales, origin exactly); failure keys carry the "
     "relation (first / same-pattern / same-shape / revisit-first). Non-trivial = per-pixel sub-size not constant, "
     "or (iterate) at least two pixels stop at different schedule levels, or (shared) at least one same-pattern "
-    "geometry with other scales/origin; distinct = SHA-1 of the canonical case."
+    "geometry with other scales/origin; distinct = SHA-1 of the canonical case. tables (uniform int sub-size 1..6, "
+    "masks up to 8x8): oversample_mask_2d_from == every mask entry expanded to an s x s block; "
+    "native_sub_index_for_slim_sub_index_2d_from and OverSamplerUniform.sub_mask_native_for_sub_mask_slim (int and "
+    "constant-list sub-size) == (i*s+y1, j*s+x1) in the stated order (pixels in slim order, rows top-to-bottom, "
+    "left-to-right), a bijection onto the unmasked entries of the sub-mask, and the centre of table entry k in the "
+    "(H*s,W*s) frame (scales ps/s, same origin) equals the k-th over-sampled coordinate (atol 1e-11); "
+    "sub_slim_index_for_sub_native_index_from == row-major rank of the unmasked sub-mask entries, -1 on masked "
+    "ones (all exact). adapt (masks up to 6x6): the sub-size tables built by OverSamplingUniform.from_adapt "
+    "(generated data / noise / cut / lower / upper), from_radial_bins with the default centre and the dataset's "
+    "default pixelization over-sampling must hold one documented size per unmasked pixel and lead to a sub-grid, "
+    "slim_for_sub_slim, binned values and decorated values equal to the reference for that table (the adaptive "
+    "choice of sizes itself is not checked); OverSamplingIterate(sub_steps=None) follows the rule on the documented "
+    "default schedule [2,4,8,16]; the identically-zero function returns exact zeros (every level is 0). "
+    "Non-trivial there = sub-size > 1 on a mask that is not a solid rectangle (tables), from_adapt table mixed (adapt)."
 )
 ASSUMPTIONS = [
     "pixel (i,j) of an (H,W) frame is centred at (oy+((H-1)/2-i)*sy, ox+(j-(W-1)/2)*sx) (C02's closed form); "
@@ -1059,3 +1072,213 @@ def body_shared(case, ctx):
 
 SUBCHECKS.append(SubCheck("shared", body_shared, strategy=shared_cases(), examples={"quick": 150, "thorough": 3000},
                           shards={"quick": 2, "thorough": 6}))
+
+
+# ---------------------------------------------------------------------------------------------
+# tables: the sub-mask and the slim <-> native sub-index tables (uniform sub-size: the only form in which a
+# "native" over-sampled frame of shape (H*s, W*s) exists)
+# ---------------------------------------------------------------------------------------------
+@st.composite
+def tables_cases(draw):
+    c = draw(frames(hi=8))
+    c["sub"] = draw(st.one_of(st.sampled_from([1, 2, 2, 3]), st.integers(1, 6)))
+    return c
+
+
+def body_tables(case, ctx):
+    aa = _aa()
+    m, ps, origin, mask = _frame(case)
+    s = int(case["sub"])
+    h, w = m.shape
+    ij = np.argwhere(~m)
+    n = len(ij)
+    _frame_labels(ctx, m, ps, origin)
+    ctx.label("sub:%d" % s if s <= 3 else "sub:4-6")
+    ctx.nt(s > 1 and n >= 2 and "mask:not-solid-rectangle" in ctx.labels)
+
+    # sub-mask: every pixel of the mask expanded to an s x s block of its own value
+    want_sm = np.repeat(np.repeat(m, s, axis=0), s, axis=1)
+    got_sm = aa.util.over_sample.oversample_mask_2d_from(mask=m.copy(), sub_size=s)
+    ctx.equal(np.asarray(got_sm).astype(bool), want_sm, "tables/sub_mask", "oversample_mask_2d_from vs block expansion")
+    ctx.check(np.asarray(got_sm).shape == (h * s, w * s) and int((~np.asarray(got_sm).astype(bool)).sum()) == n * s * s,
+              "tables/sub_mask", "sub-mask must hold sub^2 unmasked entries per unmasked pixel")
+
+    # native index of every sub-pixel, in the stated order: pixel by pixel (slim order), then rows top-to-bottom,
+    # within a row left-to-right
+    y1, x1 = np.meshgrid(np.arange(s), np.arange(s), indexing="ij")
+    want_nat = np.concatenate([np.stack([i * s + y1.ravel(), j * s + x1.ravel()], axis=1) for i, j in ij]) \
+        if n else np.zeros((0, 2), dtype=int)
+    tables = [
+        ("util", aa.util.over_sample.native_sub_index_for_slim_sub_index_2d_from(
+            mask_2d=m.copy(), sub_size=np.full(n, s, dtype=int))),
+        ("sampler(int)", aa.OverSamplerUniform(mask=mask, sub_size=s).sub_mask_native_for_sub_mask_slim),
+        ("sampler(list)", aa.OverSamplerUniform(mask=mask, sub_size=_sub_arg(mask, [s] * n)).sub_mask_native_for_sub_mask_slim),
+    ]
+    for name, got in tables:
+        ctx.equal(np.asarray(got), want_nat, "tables/native_for_slim", "sub_mask_native_for_sub_mask_slim (%s)" % name)
+    got = np.asarray(tables[1][1])
+    if got.shape == want_nat.shape and n:
+        # a bijection onto the unmasked entries of the sub-mask
+        order = np.lexsort((got[:, 1], got[:, 0]))
+        ctx.equal(got[order], np.argwhere(~want_sm), "tables/native_for_slim/bijection",
+                  "table rows (sorted) vs the unmasked entries of the sub-mask")
+        # consistent with the over-sampled grid: entry k is the pixel of the (H*s, W*s) frame (scales ps/s, same
+        # origin) whose centre is the k-th over-sampled coordinate
+        osr = aa.OverSamplerUniform(mask=mask, sub_size=s)
+        cy = origin[0] + ((h * s - 1) / 2.0 - got[:, 0]) * (ps[0] / s)
+        cx = origin[1] + (got[:, 1] - (w * s - 1) / 2.0) * (ps[1] / s)
+        own = np.asarray(osr.over_sampled_grid, dtype=float)
+        if own.shape == (len(got), 2):
+            ctx.close(np.stack([cy, cx], axis=1), own, "tables/native_for_slim/grid-consistency", atol=COORD_ATOL,
+                      what="centre of the table's native sub-pixel vs the over-sampled coordinate with the same index")
+
+    # slim index of every native entry of a sub-mask: row-major rank of the unmasked entries, -1 on masked ones
+    want_idx = -np.ones(want_sm.shape)
+    want_idx[~want_sm] = np.arange(int((~want_sm).sum()))
+    got_idx = aa.util.over_sample.sub_slim_index_for_sub_native_index_from(sub_mask_2d=want_sm.copy())
+    ctx.equal(np.asarray(got_idx), want_idx, "tables/slim_for_native", "sub_slim_index_for_sub_native_index_from")
+
+
+SUBCHECKS.append(SubCheck("tables", body_tables, strategy=tables_cases(), examples={"quick": 300, "thorough": 4000},
+                          shards={"quick": 1, "thorough": 2}))
+
+
+# ---------------------------------------------------------------------------------------------
+# adapt: sub-size tables produced by the library's own schemes (from_adapt, from_radial_bins with the default
+# centre, the dataset's default pixelization over-sampling) must lead to an over-sampled grid / binning that
+# obeys the statement; the documented default schedule; the identically-zero function.  The adaptive CHOICE of
+# sizes is not checked, only that the table is one documented size per unmasked pixel.
+# ---------------------------------------------------------------------------------------------
+@st.composite
+def adapt_cases(draw):
+    c = draw(frames(hi=6))
+    n = _n_unmasked(c["mask"])
+    c["data"] = draw(st.lists(gens.reals(-10, 10), min_size=n, max_size=n))
+    c["noise"] = draw(st.lists(gens.positives(0.1, 5.0), min_size=n, max_size=n))
+    c["cut"] = draw(gens.positives(0.25, 10.0))
+    c["lower"] = draw(st.integers(1, 4))
+    c["upper"] = draw(st.integers(c["lower"], 6))
+    k = draw(st.integers(1, 3))
+    c["radial_sub"] = draw(st.lists(st.integers(1, 5), min_size=k + 1, max_size=k + 1))
+    c["radial"] = sorted(draw(st.lists(st.floats(0.3, 6.0), min_size=k, max_size=k, unique=True)))
+    c["frac"] = draw(st.sampled_from([0.5, 0.9, 0.99, 0.999, 0.9999]))
+    c["rel"] = draw(st.one_of(st.none(), st.sampled_from([1e-4, 1e-2])))
+    c["salt"] = draw(st.integers(0, 1000))
+    fn = draw(functions(c, family=draw(st.sampled_from(["profile", "profile", "mixed"]))))
+    c["fn"] = fn
+    return c
+
+
+def _table_obeys_statement(ctx, key, os_, sizes_allowed, m, ps, origin, mask, fn, salt, int_table):
+    """The sub-size table of an OverSamplingUniform built by the library -> grid, binning, decorated values."""
+    aa = _aa()
+    P = _profiles()
+    n = int((~m).sum())
+    tab = np.asarray(getattr(os_.sub_size, "slim", os_.sub_size), dtype=float)
+    ok = tab.shape == (n,) and bool(np.all(np.isin(tab, np.asarray(sizes_allowed, dtype=float))))
+    ctx.check(ok, key + "/table", "sub-size table %s is not one of the documented sizes %s per unmasked pixel" % (
+        tab, sizes_allowed))
+    if not ok:
+        return None
+    sub = [int(v) for v in tab]
+    pts, owner = R.sub_grid(m, ps, origin, sub)
+    osr = os_.over_sampler_from(mask=mask)
+    _compare_grid(ctx, osr.over_sampled_grid, pts, key + "/grid", "over_sampled_grid")
+    if int_table:
+        ctx.equal(np.asarray(osr.slim_for_sub_slim), owner, key + "/slim_for_sub_slim", "slim_for_sub_slim")
+    vals = R.hash01(np.arange(len(owner)) + salt)
+    got = _values_of(ctx, osr.binned_array_2d_from(array=vals.copy()), n, key)
+    if got is not None:
+        ctx.close(got, R.bin_mean(vals, owner, n), key + "/binned", atol=1e-12, what="binned values vs per-pixel mean")
+    prof = P["cls"](lambda p: R.feval(fn, p))
+    fvals = R.feval(fn, pts)
+    delta = VALUE_REL * max(R.unit_of(fn), float(np.abs(fvals).max()))
+    got = _values_of(ctx, _call(prof.stacked, aa.Grid2D.from_mask(mask=mask, over_sampling=os_), None), n, key)
+    if got is not None:
+        ctx.close(got, R.bin_mean(fvals, owner, n), key + "/values", atol=delta,
+                  what="decorated function vs mean on the reference sub-grid")
+    return sub
+
+
+def body_adapt(case, ctx):
+    aa = _aa()
+    P = _profiles()
+    from autoarray.dataset.grids import GridsDataset
+    m, ps, origin, mask = _frame(case)
+    n = int((~m).sum())
+    fn = case["fn"]
+    _frame_labels(ctx, m, ps, origin)
+
+    # 1. from_adapt: "set to the upper value ... the lower value" per pixel
+    data = aa.Array2D(values=np.asarray(case["data"], dtype=float), mask=mask)
+    noise = aa.Array2D(values=np.asarray(case["noise"], dtype=float), mask=mask)
+    os_ = aa.OverSamplingUniform.from_adapt(data=data, noise_map=noise, signal_to_noise_cut=float(case["cut"]),
+                                            sub_size_lower=int(case["lower"]), sub_size_upper=int(case["upper"]))
+    sub = _table_obeys_statement(ctx, "adapt/from_adapt", os_, [case["lower"], case["upper"]], m, ps, origin, mask, fn,
+                                 case["salt"], True)
+    mixed = sub is not None and len(set(sub)) > 1
+    ctx.label("from_adapt:mixed" if mixed else "from_adapt:constant")
+    ctx.nt(mixed)
+
+    # 2. from_radial_bins with the default centre (the mask centre)
+    grid = aa.Grid2D.from_mask(mask=mask)
+    radial = [float(r) * min(ps) for r in case["radial"]]
+    os_ = aa.OverSamplingUniform.from_radial_bins(grid=grid, sub_size_list=[int(v) for v in case["radial_sub"]],
+                                                  radial_list=radial)
+    sub = _table_obeys_statement(ctx, "adapt/from_radial_bins", os_, case["radial_sub"], m, ps, origin, mask, fn,
+                                 case["salt"], False)
+    ctx.label("radial:mixed" if sub is not None and len(set(sub)) > 1 else "radial:constant")
+
+    # 3. the dataset's default pixelization over-sampling (no pixelization scheme given): whatever uniform
+    #    sub-size it picks, the sampler obeys the statement
+    gd = GridsDataset(mask=mask, over_sampling=aa.OverSamplingDataset())
+    sp = gd.pixelization.over_sampling.sub_size
+    ok = isinstance(sp, (int, np.integer)) and sp >= 1
+    ctx.check(ok, "adapt/default-pixelization/sub_size", "default pixelization sub-size is %r" % (sp,))
+    if ok:
+        _compare_grid(ctx, gd.over_sampler_pixelization.over_sampled_grid, R.sub_grid(m, ps, origin, int(sp))[0],
+                      "adapt/default-pixelization/grid", "GridsDataset.over_sampler_pixelization (default)")
+        ctx.close(np.asarray(gd.pixelization.slim, dtype=float), R.centres(m, ps, origin),
+                  "adapt/default-pixelization/pixel-centres", atol=COORD_ATOL, what="GridsDataset.pixelization coordinates")
+
+    # 4. the documented default schedule: "If None, they are setup as the default values [2, 4, 8, 16]"
+    unit = R.unit_of(fn)
+    rel = None if case["rel"] is None else float(case["rel"]) * unit
+    plain = R.feval(fn, R.centres(m, ps, origin))
+    if np.any(plain):
+        steps = [2, 4, 8, 16]
+        levels = []
+        for st_ in steps:
+            p_, o_ = R.sub_grid(m, ps, origin, st_)
+            levels.append(R.bin_mean(R.feval(fn, p_), o_, n))
+        scale = max(unit, float(np.abs(plain).max()), max(float(np.abs(l).max()) for l in levels))
+        delta = VALUE_REL * scale
+        ref = R.iterate_ref(plain, levels, float(case["frac"]), rel, delta, exact_zero=R.zero_pixels(fn, m), unit=unit)
+        ok_p = ~ref["tied"]
+        ctx.tie(int(ref["tied"].sum()))
+        it = aa.OverSamplingIterate(fractional_accuracy=case["frac"], relative_accuracy=rel)
+        prof = P["cls"](lambda p: R.feval(fn, p))
+        for name, out in (("decorator", _call(prof.stacked, aa.Grid2D.from_mask(mask=mask, over_sampling=it), None)),
+                          ("over_sampler_from", it.over_sampler_from(mask=mask).array_via_func_from(P["raw"], prof))):
+            got = _values_of(ctx, out, n, "adapt/default-schedule")
+            if got is None:
+                continue
+            bad = ok_p & ~(np.abs(got - ref["out"]) <= delta)
+            ctx.comparisons += int(ok_p.sum())
+            if bad.any():
+                p = int(np.argmax(bad))
+                ctx.fail("adapt/default-schedule/values", "%s with sub_steps=None: pixel %d: got %.17g, rule on "
+                         "[2,4,8,16] gives %.17g (levels %s)" % (name, p, got[p], ref["out"][p], [float(l[p]) for l in levels]))
+
+    # 5. the identically-zero function: every level is 0, so the value at the last sub-size is 0
+    zero = P["cls"](lambda p: np.zeros(len(p)))
+    it = aa.OverSamplingIterate(fractional_accuracy=case["frac"], relative_accuracy=rel, sub_steps=[2, 4])
+    for name, out in (("decorator", _call(zero.stacked, aa.Grid2D.from_mask(mask=mask, over_sampling=it), None)),
+                      ("over_sampler_from", it.over_sampler_from(mask=mask).array_via_func_from(P["raw"], zero))):
+        got = _values_of(ctx, out, n, "adapt/zero-function")
+        if got is not None:
+            ctx.equal(got, np.zeros(n), "adapt/zero-function/values", name + ": identically-zero function")
+
+
+SUBCHECKS.append(SubCheck("adapt", body_adapt, strategy=adapt_cases(), examples={"quick": 150, "thorough": 3000},
+                          shards={"quick": 1, "thorough": 3}))
